@@ -1,6 +1,7 @@
 package css_ast
 
 import (
+	"sort"
 	"strings"
 	"sync"
 
@@ -690,6 +691,7 @@ func MaybeCorrectDeclarationTypo(text string) (string, bool) {
 		for key := range KnownDeclarations {
 			valid = append(valid, key)
 		}
+		sort.Strings(valid)
 		detector := helpers.MakeTypoDetector(valid)
 		typoDetector = &detector
 	}
